@@ -631,6 +631,80 @@ pub fn c03_promo_castle(r: &PromoCastle, st: &mut Stats) -> CaseResult {
     Ok(())
 }
 
+/// Directed family: a declined en passant. The move list contains a double pawn step next to an
+/// enemy pawn; the capture is not made, both sides play quiet piece moves (2 or 4 plies), then `go`
+/// with a real slice. The lapsed capture would win a pawn, so an engine that still believes in it
+/// tends to play it.
+#[derive(Debug, Clone)]
+pub struct DeclinedEp {
+    pub start: u8,
+    pub pre: Vec<u16>,
+    pub which: u16,
+    pub quiet: Vec<u16>,
+    pub plies: u8,
+    pub slice: u16,
+}
+fn declined_ep_texts(r: &DeclinedEp) -> Option<(String, Pos)> {
+    let starts = [14usize, 16, 13, 42, 0, 38];
+    let start = corpus_pos(starts[r.start as usize % starts.len()]);
+    let mut p = start.clone();
+    let mut moves: Vec<Move> = vec![];
+    // a few arbitrary plies first
+    for &c in &r.pre {
+        let mut ms = p.legal_moves();
+        if ms.is_empty() {
+            return None;
+        }
+        ms.sort();
+        let m = pick_weighted(&p, &ms, c);
+        p = p.apply(&m);
+        moves.push(m);
+    }
+    // a double step that lands beside an enemy pawn
+    let mut ds: Vec<Move> = p.legal_moves().into_iter().filter(|m| p.classify(m) == MoveClass::DoubleStep && {
+        let q = p.apply(m);
+        q.pseudo().iter().any(|x| q.classify(x) == MoveClass::EnPassant)
+    }).collect();
+    ds.sort();
+    if ds.is_empty() {
+        return None;
+    }
+    let m = pick_uniform(&ds, r.which);
+    p = p.apply(&m);
+    moves.push(m);
+    // quiet piece moves by both sides
+    let n = if r.plies % 2 == 0 { 2 } else { 4 };
+    for j in 0..n {
+        let mut qs: Vec<Move> = p.legal_moves().into_iter().filter(|m| p.classify(m) == MoveClass::Quiet && p.sq[m.from as usize].map(|x| x.1) != Some(Kind::Pawn)).collect();
+        qs.sort();
+        if qs.is_empty() {
+            return None;
+        }
+        let m = pick_uniform(&qs, r.quiet.get(j).cloned().unwrap_or(0));
+        p = p.apply(&m);
+        moves.push(m);
+    }
+    if p.legal_moves().is_empty() {
+        return None;
+    }
+    let names: Vec<String> = moves.iter().map(mv_name).collect();
+    let text = if start == Pos::startpos() { format!("position startpos moves {}", names.join(" ")) } else { format!("position fen {} moves {}", start.fen(), names.join(" ")) };
+    Some((text, p))
+}
+fn declined_ep_strategy() -> impl Strategy<Value = DeclinedEp> {
+    (0u8..6, proptest::collection::vec(any::<u16>(), 0..6), any::<u16>(), proptest::collection::vec(any::<u16>(), 4), any::<u8>(), 20u16..80).prop_map(|(start, pre, which, quiet, plies, slice)| DeclinedEp { start, pre, which, quiet, plies, slice })
+}
+fn declined_ep_json(r: &DeclinedEp) -> Value {
+    match declined_ep_texts(r) {
+        Some((t, p)) => {
+            let clock = 100 + (r.slice as u64) * 30 * 10 / 8 + 1;
+            let go = if p.stm == Color::White { format!("go wtime {} btime 4000", clock) } else { format!("go btime {} wtime 4000", clock) };
+            json!({"position": t, "gos": [go]})
+        }
+        None => json!({"position": null}),
+    }
+}
+
 pub fn run_c03(ctx: &mut Ctx) {
     let t = ctx.tier;
     ctx.max_shrink_iters = 16;
@@ -667,6 +741,24 @@ pub fn run_c03(ctx: &mut Ctx) {
             c03_promo_castle(r, st)
         },
         |r| json!({"position": promo_castle_texts(r).map(|x| x.0), "gos": promo_castle_texts(r).map(|x| x.2)}),
+    );
+    run_prop(
+        ctx,
+        "declined_en_passant_then_go",
+        declined_ep_strategy,
+        t.pick(1_600, 16_000),
+        |r, st| {
+            let v = declined_ep_json(r);
+            if v["position"].is_null() {
+                st.label("recipe_discarded");
+                return Ok(());
+            }
+            st.eval();
+            st.sample(|| v.clone());
+            st.nontrivial(fp(&v.to_string()));
+            replay_go_session(&v, false)
+        },
+        declined_ep_json,
     );
     ctx.workers = saved;
 }
